@@ -17,12 +17,13 @@ R, S, KS, W = "R", "S", "kS", "W"
 
 
 class Val(object):
-    __slots__ = ("cls", "roles", "const")
+    __slots__ = ("cls", "roles", "const", "deps")
 
-    def __init__(self, cls, roles=frozenset(), const=None):
+    def __init__(self, cls, roles=frozenset(), const=None, deps=frozenset()):
         self.cls = cls
         self.roles = frozenset(roles)
         self.const = const
+        self.deps = frozenset(deps)       # (operand, coordinate) leaves the value is computed from
 
     def __repr__(self):
         return "%s%s" % (self.cls, "/" + ",".join(sorted(self.roles)) if self.roles else "")
@@ -84,7 +85,7 @@ class ModP(object):
         ia = order.index(a.cls) if a.cls in order else (0 if a.cls == "C" and a.const in (0, 1) else 3)
         ib = order.index(b.cls) if b.cls in order else (0 if b.cls == "C" and b.const in (0, 1) else 3)
         cls = order[max(ia, ib)]
-        return Val(cls, a.roles | b.roles, a.const if a.const == b.const else None)
+        return Val(cls, a.roles | b.roles, a.const if a.const == b.const else None, a.deps | b.deps)
 
     def run_func(self, f):
         env = {}
@@ -197,6 +198,39 @@ class ModP(object):
     def coords(self):
         return (Val(R, {"X", "in", "coord"}), Val(R, {"Y", "in", "coord"}), Val(R, {"Z", "in", "coord"}))
 
+    def _binop_core(self, e, env, a, b):
+        if not isinstance(a, Val) or not isinstance(b, Val):
+            return Val(W)
+        if a.cls == "B" or b.cls == "B":
+            return Val(R, a.roles | b.roles) if (isinstance(e.op, ast.Mod) and b.cls == "P") else Val("B")
+        roles = a.roles if a.roles == b.roles or not b.roles else (b.roles if not a.roles else frozenset())
+        if "coord" in a.roles or "coord" in b.roles:
+            roles = frozenset(roles) | {"coord"}
+        if a.cls == "P" or b.cls == "P":
+            if isinstance(e.op, ast.Mod) and b.cls == "P":
+                return Val(R, a.roles)
+            if isinstance(e.op, ast.Sub) and a.cls == "P" and b.cls == R:
+                return Val(R, b.roles ^ {"neg"})      # p - v for v in R (v != 0: 2-torsion side condition)
+            return Val(W)
+        if isinstance(e.op, ast.Mod):
+            return Val(W)
+        if isinstance(e.op, ast.Sub):
+            if a.cls == R and b.cls == R:
+                return Val(S, roles)
+            return Val(W, roles)
+        if isinstance(e.op, ast.Mult):
+            if a.cls == "C" and b.cls in (R, S, KS) and a.const not in (0, None) and abs(a.const) < 64:
+                return Val(KS, b.roles)
+            if b.cls == "C" and a.cls in (R, S, KS) and b.const not in (0, None) and abs(b.const) < 64:
+                return Val(KS, a.roles)
+            if a.cls == "C" and b.cls == "C":
+                return Val("C", const=(a.const * b.const) if None not in (a.const, b.const) else None)
+            return Val(W, roles)
+        if isinstance(e.op, ast.Pow):
+            return Val(W, a.roles)
+        return Val(W, roles if isinstance(e.op, ast.Add) else frozenset())
+
+
     def ev(self, e, env):
         if isinstance(e, ast.Constant):
             if isinstance(e.value, int) and not isinstance(e.value, bool):
@@ -205,11 +239,16 @@ class ModP(object):
         if isinstance(e, ast.Name):
             return env.get(e.id, Val(W))
         if isinstance(e, ast.Tuple):
-            return tuple(self.ev(x, env) for x in e.elts)
+            vals = [self.ev(x, env) for x in e.elts]
+            if len(vals) == 3 and isinstance(vals[2], Val) and vals[2].const == 1 and all(isinstance(v, Val) and len(v.deps) == 1 for v in vals[:2]):
+                ops = {list(v.deps)[0][0] for v in vals[:2]}
+                if len(ops) == 1:
+                    vals[2] = Val(R, {"Z"}, const=1, deps={(ops.pop(), "Z")})    # affine operand: Z is the literal 1
+            return tuple(vals)
         if isinstance(e, ast.Attribute):
             if e.attr == "__coords":
                 op = "op1" if isinstance(e.value, ast.Name) and e.value.id == "self" else "op2"
-                return tuple(Val(v.cls, v.roles | {op}) for v in self.coords())
+                return tuple(Val(v.cls, v.roles | {op, "raw"}, deps={(op, "XYZ"[i])}) for i, v in enumerate(self.coords()))
             return Val(W)
         if isinstance(e, ast.Subscript):
             b = self.ev(e.value, env)
@@ -222,43 +261,18 @@ class ModP(object):
                 if v.cls == "B":
                     return v
                 if v.cls == R:
-                    return Val(S, v.roles ^ {"neg"})
+                    return Val(S, (v.roles - {"raw"}) ^ {"neg"}, deps=v.deps)
                 if v.cls == "C":
                     return Val("C", const=-v.const if v.const is not None else None)
                 return Val(W, v.roles)
             return Val(W)
         if isinstance(e, ast.BinOp):
-            a, b = self.ev(e.left, env), self.ev(e.right, env)
-            if not isinstance(a, Val) or not isinstance(b, Val):
-                return Val(W)
-            if a.cls == "B" or b.cls == "B":
-                return Val(R, a.roles | b.roles) if (isinstance(e.op, ast.Mod) and b.cls == "P") else Val("B")
-            roles = a.roles if a.roles == b.roles or not b.roles else (b.roles if not a.roles else frozenset())
-            if "coord" in a.roles or "coord" in b.roles:
-                roles = frozenset(roles) | {"coord"}
-            if a.cls == "P" or b.cls == "P":
-                if isinstance(e.op, ast.Mod) and b.cls == "P":
-                    return Val(R, a.roles)
-                if isinstance(e.op, ast.Sub) and a.cls == "P" and b.cls == R:
-                    return Val(R, b.roles ^ {"neg"})      # p - v for v in R (v != 0: 2-torsion side condition)
-                return Val(W)
-            if isinstance(e.op, ast.Mod):
-                return Val(W)
-            if isinstance(e.op, ast.Sub):
-                if a.cls == R and b.cls == R:
-                    return Val(S, roles)
-                return Val(W, roles)
-            if isinstance(e.op, ast.Mult):
-                if a.cls == "C" and b.cls in (R, S, KS) and a.const not in (0, None) and abs(a.const) < 64:
-                    return Val(KS, b.roles)
-                if b.cls == "C" and a.cls in (R, S, KS) and b.const not in (0, None) and abs(b.const) < 64:
-                    return Val(KS, a.roles)
-                if a.cls == "C" and b.cls == "C":
-                    return Val("C", const=(a.const * b.const) if None not in (a.const, b.const) else None)
-                return Val(W, roles)
-            if isinstance(e.op, ast.Pow):
-                return Val(W, a.roles)
-            return Val(W, roles if isinstance(e.op, ast.Add) else frozenset())
+            a_, b_ = self.ev(e.left, env), self.ev(e.right, env)
+            r_ = self._binop_core(e, env, a_, b_)
+            if isinstance(r_, Val):
+                d_ = (a_.deps if isinstance(a_, Val) else frozenset()) | (b_.deps if isinstance(b_, Val) else frozenset())
+                return Val(r_.cls, r_.roles - {"raw"}, r_.const, d_)
+            return r_
         if isinstance(e, ast.Call):
             fn = e.func
             name = fn.id if isinstance(fn, ast.Name) else fn.attr if isinstance(fn, ast.Attribute) else None
@@ -275,7 +289,9 @@ class ModP(object):
             if name in ("a", "b"):
                 return Val(R)         # curve coefficients are stored residues (A5)
             if name in ("x", "y") and not e.args:
-                return Val(R, {"X" if name == "x" else "Y", "coord"})
+                recv = fn.value.id if isinstance(fn, ast.Attribute) and isinstance(fn.value, ast.Name) else None
+                op = "op1" if recv == "self" else "op2" if recv else None
+                return Val(R, {"X" if name == "x" else "Y", "coord"}, deps={(op, name.upper())} if op else frozenset())
             if name == "mpz" and args:
                 return args[0]
             if name == self.clsname or name == "PointJacobi" or name == "Point":
